@@ -16,10 +16,15 @@ func (id DeploymentID) Equals(other DeploymentID) bool {
 
 // Validate method for DeploymentID and returns nil
 func (id DeploymentID) Validate() error {
-	_, err := sdk.AccAddressFromBech32(id.Owner)
+	owner, err := sdk.AccAddressFromBech32(id.Owner)
 	switch {
 	case err != nil:
 		return sdkerrors.Wrap(sdkerrors.ErrInvalidAddress, "DeploymentID: Invalid Owner Address")
+	case owner.String() != id.Owner:
+		// store keys and escrow ids are built from the owner string as given, while ids parsed
+		// back from escrow ids are canonical: another spelling of the same address (bech32 also
+		// admits all upper case) would name records the escrow hooks can never find.
+		return sdkerrors.Wrap(sdkerrors.ErrInvalidAddress, "DeploymentID: Owner Address is not in canonical form")
 	case id.DSeq == 0:
 		return sdkerrors.Wrap(sdkerrors.ErrInvalidSequence, "DeploymentID: Invalid Deployment Sequence")
 	}
